@@ -35,11 +35,20 @@ def run(chk, scratch):
     # 4. hand-over sweep (lock-based cache): Store(v2) fails at backend call k; what it still does after giving the lock back is held until
     #    another client's complete Store(v3) is over: the later critical section's version must be what a Fetch returns
     ho, _ = common.record(vh, scratch, "c16", "handoff.ndjson", chk.seed, chk.tier, mode="handoff", timeout=3000)
+    # 5. clean sweep (immutable cache): CleanEntry stopped before each of its backend calls, a complete Store(v3) by another client, CleanEntry resumed
+    cs, _ = common.record(vh, scratch, "c16", "cleansweep.ndjson", chk.seed, chk.tier, mode="cleansweep", timeout=3000)
+    chk.cov["clean_sweep_scenarios"] = sum(1 for line in open(cs) if '"op":"Begin"' in line)
+    # 6. lock time-out (lock-based cache, three clients): A's Store stopped inside its critical section, B's Fetch gives up waiting for the lock,
+    #    C's Store, A resumed: whoever gave up must have left the holder's lock alone
+    lt, _ = common.record(vh, scratch, "c16", "locktimeout.ndjson", chk.seed, chk.tier, mode="locktimeout", timeout=3000)
+    chk.cov["lock_time_out_scenarios"] = sum(1 for line in open(lt) if '"op":"Begin"' in line)
     trace = os.path.join(scratch, "c16-trace.ndjson")
     with open(trace, "w") as out:
         out.write(open(sw).read())
         out.write("".join(line for line in open(il) if '"op":"End"' not in line))     # one End closes the whole trace
-        out.write(open(ho).read())
+        out.write("".join(line for line in open(ho) if '"op":"End"' not in line))
+        out.write("".join(line for line in open(cs) if '"op":"End"' not in line))
+        out.write(open(lt).read())
     chk.cov["hand_over_scenarios"] = sum(1 for line in open(ho) if '"op":"Begin"' in line)
     total = sum(1 for line in open(trace) if line.strip())
     r = vlib.run_tlc(scratch, [SPEC], "SharedCacheTrace", "SharedCacheTrace.cfg", workers=1, timeout=1800, deadlock=False,
@@ -70,7 +79,13 @@ def run(chk, scratch):
             if 100000 <= v["id"] < 200000:
                 e = ctx[0]
                 what = " (%s cache, %s backend, %s at call %d/%d: %s)" % (e["cache"], e["backend"], e["mode"], e["k"], e["of"], e["faultOp"])
-            if v["id"] >= 200000:
+            if v["id"] >= 400000:
+                what = " (lock time-out: Store(v2) of A stopped %s backend calls into its critical section on the %s backend, B's Fetch gives up waiting, C's Store(v3), A resumed: %s)" % (
+                    ctx[0].get("seq"), ctx[0].get("backend"), [(e["op"], e.get("c"), e.get("v"), e.get("result"), e.get("match")) for e in ctx[1:]])
+            elif v["id"] >= 300000:
+                what = " (clean sweep: CleanEntry of the immutable cache stopped before its backend call %s on the %s backend, a complete Store(v3) meanwhile: %s)" % (
+                    ctx[0].get("seq"), ctx[0].get("backend"), [(e["op"], e.get("c"), e.get("v"), e.get("result"), e.get("match")) for e in ctx[1:]])
+            elif v["id"] >= 200000:
                 what = " (hand-over: Store(v2) failing at backend call %s on the %s backend, then a complete Store(v3) by another client: %s)" % (
                     ctx[0].get("seq"), ctx[0].get("backend"), [(e["op"], e.get("c"), e.get("v"), e.get("result"), e.get("match")) for e in ctx[1:]])
             chk.violation(s, "trace %d%s" % (v["id"], what), {"events": ctx})
